@@ -139,6 +139,37 @@ fn opt_line_count(ds: &Option<DrawState>, width: usize) -> (r: VisualLines)
 {
     match ds { Some(d) => visual_line_count(&d.lines, width), None => VisualLines::default() }
 }
+// R5: `ds.as_ref().zip(width).map(|(d, width)| d.visual_line_count(.., width)).unwrap_or_default()`
+fn opt_line_count2(ds: &Option<DrawState>, width: Option<usize>) -> (r: VisualLines)
+    requires width matches Some(w) ==> w >= 1 && (ds matches Some(d) ==> hts(d.lines@, w as nat, d.lines.len() as int) <= usize::MAX)
+    ensures r.0 as nat == (match (*ds, width) { (Some(d), Some(w)) => hts(d.lines@, w as nat, d.lines.len() as int), _ => 0 })
+{
+    match (ds, width) { (Some(d), Some(w)) => visual_line_count(&d.lines, w), _ => VisualLines::default() }
+}
+// R5: `self.width().map(usize::from)`
+fn opt_u16_usize(w: Option<u16>) -> (r: Option<usize>)
+    ensures match w { Some(v) => r == Some(v as usize), None => r is None }
+{ match w { Some(v) => Some(v as usize), None => None } }
+// R5: `v.first().copied()`
+fn vec_first(v: &Vec<usize>) -> (r: Option<usize>)
+    ensures v@.len() == 0 ==> r is None, v@.len() > 0 ==> r == Some(v@[0])
+{ if v.len() == 0 { None } else { Some(v[0]) } }
+// R5: `msg.is_empty()` / `vec![LineType::Empty]`
+#[verifier::external_body]
+fn str_is_empty(s: &str) -> (r: bool) ensures r == (s@.len() == 0) { s.is_empty() }
+fn one_empty_line() -> (r: Vec<LineType>) ensures r@ == seq![LineType::Empty] { let mut v = Vec::new(); v.push(LineType::Empty); v }
+// R5: `member.draw_state.get_or_insert(DrawState::default())`
+fn opt_get_or_insert(o: &mut Option<DrawState>, d: DrawState) -> (r: &mut DrawState)
+    ensures *r == (match *old(o) { Some(x) => x, None => d }), *final(o) == Some(*final(r))
+{
+    if o.is_none() { *o = Some(d); }
+    match o { Some(x) => x, None => { proof { assert(false); } unreached() } }
+}
+impl DrawState {
+    // #[derive(Default)] (R11)
+    fn default() -> (r: Self) ensures r.lines@.len() == 0 && !r.move_cursor && r.alignment is Top
+    { DrawState { lines: Vec::new(), move_cursor: false, alignment: MultiProgressAlignment::default() } }
+}
 // R5: Vec::extend_from_slice (clones the lines)
 #[verifier::external_body]
 fn extend_cloned(v: &mut Vec<LineType>, src: &Vec<LineType>) ensures final(v)@ == old(v)@ + src@ { unimplemented!() }
@@ -162,7 +193,7 @@ spec fn zprefix(members: Seq<MultiStateMember>, order: Seq<usize>, k: int) -> in
 // size assumptions (rows counted in 28 bits): NOT proved to be preserved, see trusted list
 spec fn ms_small(ms: MultiState, extra: Option<Vec<LineType>>, w: nat) -> bool {
     &&& ms.zombie_lines_count.0 <= 0x0FFF_FFFF
-    &&& (ms.draw_target.own() matches Some(x) ==> x.1.0 <= 0x0FFF_FFFF)
+    &&& (ms.draw_target.own() matches Some(x) ==> x.1.0 <= 0x1FFF_FFFF)
     &&& small(ms.orphan_lines@) && (extra matches Some(v) ==> small(v@))
     &&& zheight(ms.members@, ms.ordering@, w, ms.ordering@.len() as int) <= 0x0FFF_FFFF
     &&& forall|i: int| 0 <= i < ms.members@.len() ==> lines_ok(mlines(#[trigger] ms.members@[i]))
@@ -447,13 +478,13 @@ UNIT = Unit(
             lemma_flat_height(m0, o0, w, o0.len() as int);
             lemma_flat_ok(m0, o0, o0.len() as int);
             assert(small(orph0));
-            assert(hts(orph0, w, orph0.len() as int) <= 0x1FFF_FFFF);
+            assert(hts(orph0, w, orph0.len() as int) <= 0x0FFF_FFFF);
             lemma_hts_ge_len(orph0, w, orph0.len() as int);
             assert(hts(orph0, w, 0) == 0);
             lemma_zheight_mono(m0, o0, w, z, o0.len() as int);
             // rows handed to the clear loop: bounded
             assert(llc_of(a1) <= llc_of(a0.draw_target) + z0 + zheight(m0, o0, w, z));
-            assert(llc_of(a1) <= 0x2FFF_FFFD);
+            assert(llc_of(a1) <= 0x3FFF_FFFD);
         }"""),
                (r"Some\(drawable\) => drawable,\n\s*None => return Ok\(\(\)\),", "at", """Some(drawable) => drawable,
             None => {
@@ -476,7 +507,7 @@ UNIT = Unit(
             lemma_hts_concat(e, orph0, w, orph0.len() as int);
             lemma_small_empty_line();
             if extra_lines is None { assert(small(e)); }
-            assert(hts(e, w, e.len() as int) <= 0x1FFF_FFFF);
+            assert(hts(e, w, e.len() as int) <= 0x0FFF_FFFF);
             assert forall|i: int| 0 <= i < (e + orph0 + fl).len() implies cols(line_str(#[trigger] (e + orph0 + fl)[i])) <= 0xFFFF_FFFF && !is_cr(line_str((e + orph0 + fl)[i])) by {
                 if i < e.len() { assert((e + orph0 + fl)[i] == e[i]); }
                 else if i < e.len() + orph0.len() { assert((e + orph0 + fl)[i] == orph0[i - e.len()]); }
@@ -550,6 +581,63 @@ UNIT = Unit(
                 assert(cur.subrange(1, cur.len() as int) =~= o0.subrange(__n2 as int + 1, o0.len() as int));
             }"""},
            }),
+        Fn("src/multi.rs", "MultiState", "mark_zombie",
+           rewrites=[Rw("R5", r"self\.width\(\)\.map\(usize::from\)", "opt_u16_usize(self.width())"),
+                     Rw("R5", r"self\.ordering\.first\(\)\.copied\(\)", "vec_first(&self.ordering)"),
+                     Rw("R5", r"member\s*\.draw_state\s*\.as_ref\(\)\s*\.zip\(width\)\s*\.map\(\|\(d, width\)\| d\.visual_line_count\(\.\., width\)\)\s*\.unwrap_or_default\(\)", "opt_line_count2(&member.draw_state, width)")],
+           requires=[("wf", "old(self).wf()"), ("target-wf", "old(self).draw_target.wf()"), ("own-target", "!(old(self).draw_target.kind is Multi)"),
+                     ("member", "old(self).ordering@.contains(index) && index < old(self).members@.len()"),
+                     ("sizes", "old(self).zombie_lines_count.0 <= 0x0FFF_FFFF && forall|w: nat| 1 <= w <= 65535 ==> #[trigger] mheight(old(self).members@[index as int], w) <= 0x0FFF_FFFF")],
+           proofs=[(r"let line_count = opt_line_count2", "before", """        proof {
+            if width is Some { let wv = width.unwrap() as nat; assert(1 <= wv <= 65535); assert(mheight(old(self).members@[index as int], wv) <= 0x0FFF_FFFF); }
+        }""")],
+           ensures=[("wf", "final(self).wf()"),
+                    ("C06-no-terminal-op", "final(self).draw_target.ops() == old(self).draw_target.ops() && only_llc_differs(old(self).draw_target, final(self).draw_target)"),
+                    ("C04-not-at-head-flagged", "old(self).ordering@[0] != index ==> final(self).ordering@ == old(self).ordering@ && final(self).members@[index as int].is_zombie "
+                                                "&& final(self).members@[index as int].draw_state == old(self).members@[index as int].draw_state && final(self).zombie_lines_count == old(self).zombie_lines_count "
+                                                "&& final(self).draw_target == old(self).draw_target"),
+                    ("C04-head-kept-as-static-rows", "old(self).ordering@[0] == index ==> final(self).ordering@ == without(old(self).ordering@, index) "
+                                                "&& (old(self).draw_target.own() matches Some(x) ==> (final(self).zombie_lines_count.0 - old(self).zombie_lines_count.0 == mheight(old(self).members@[index as int], x.0.w) "
+                                                "&& llc_of(final(self).draw_target) == (if llc_of(old(self).draw_target) >= mheight(old(self).members@[index as int], x.0.w) { llc_of(old(self).draw_target) - mheight(old(self).members@[index as int], x.0.w) } else { 0 })))")]),
+        Fn("src/multi.rs", "MultiState", "println", ret="r", sig_rewrites=[K.IO_RESULT, Rw("R15", r"<I: AsRef<str>>", ""), Rw("R15", r"msg: I", "msg: &str")],
+           rewrites=[Rw("R15", r"let msg = msg\.as_ref\(\);", ""),
+                     Rw("R5", r"match msg\.is_empty\(\) \{\s*false => msg\.lines\(\)\.map\(\|l\| LineType::Text\(Into::into\(l\)\)\)\.collect\(\),\s*true => vec!\[LineType::Empty\],\s*\}",
+                        "if str_is_empty(msg) { one_empty_line() } else { text_lines(msg) }")],
+           proofs=[(r"self\.draw\(true, Some\(lines\), now\)", "before", """        proof {
+            lemma_small_empty_line();
+            assert(small(lines@));
+            assert forall|w: nat| 1 <= w <= 65535 implies #[trigger] ms_small(*self, Some(lines), w) by { }
+        }""")],
+           requires=[("wf", "old(self).wf()"), ("target-wf", "old(self).draw_target.wf()"), ("clock", "time_ok(now)"), ("own-target", "!(old(self).draw_target.kind is Multi)"),
+                     ("nonempty-text", "msg@.len() > 0 ==> text_lines_of(msg@).len() > 0"),   # str::lines of a non-empty string yields at least one line
+                     ("sizes", "forall|w: nat, e: Option<Vec<LineType>>| 1 <= w <= 65535 && (e matches Some(v) ==> small(v@)) ==> #[trigger] ms_small(*old(self), e, w)")],
+           ensures=[("wf", "final(self).wf()"),
+                    ("C03-C18-println", "exists|v: Vec<LineType>| v@ == (if msg@.len() == 0 { seq![LineType::Empty] } else { text_lines_of(msg@) }) && #[trigger] ms_draw_post(*old(self), *final(self), true, Some(v), now, r)")]),
+        Fn("src/multi.rs", "MultiState", "draw_state", ret="r",
+           rewrites=[Rw("R5", r"self\.members\.get_mut\(idx\)\.unwrap\(\)", "&mut self.members[idx]"),
+                     Rw("R5", r"member\.draw_state\.get_or_insert\(DrawState::default\(\)\)", "opt_get_or_insert(&mut member.draw_state, DrawState::default())")],
+           requires=[("slot", "idx < old(self).members@.len()")],
+           ensures=[("C02-member-state", "r.orphan_lines is Some && (old(self).members@[idx as int].draw_state matches Some(d) ==> *r.state == d) && (old(self).members@[idx as int].draw_state is None ==> r.state.lines@.len() == 0)")]),
+        Fn("src/multi.rs", "MultiState", "clear", ret="r", sig_rewrites=[K.IO_RESULT],
+           requires=[("wf", "old(self).wf()"), ("target-wf", "old(self).draw_target.wf()"), ("clock", "time_ok(now)"), ("own-target", "!(old(self).draw_target.kind is Multi)"),
+                     ("sizes", "old(self).zombie_lines_count.0 <= 0x0FFF_FFFF && llc_of(old(self).draw_target) <= 0x0FFF_FFFF")],
+           ensures=[("wf", "final(self).wf() && final(self).ordering@ == old(self).ordering@ && final(self).members@ == old(self).members@ && final(self).orphan_lines@ == old(self).orphan_lines@ && final(self).alignment == old(self).alignment"),
+                    ("target-wf", "final(self).draw_target.wf() && final(self).draw_target.same_kind(old(self).draw_target)"),
+                    ("rows-bounded", "final(self).zombie_lines_count.0 <= old(self).zombie_lines_count.0 && llc_of(final(self).draw_target) <= llc_of(old(self).draw_target) + old(self).zombie_lines_count.0"),
+                    ("C06-silent-when-hidden", "old(self).draw_target.hidden() ==> final(self).draw_target.ops() == old(self).draw_target.ops()"),
+                    ("C02-clear-wipes-zombies-too", "old(self).draw_target.own() is Some ==> final(self).zombie_lines_count.0 == 0")]),
+        Fn("src/multi.rs", "MultiState", "suspend", ret="r",
+           sig_rewrites=[Rw("R5", r"<F: FnOnce\(\) -> R, R>", "<F: FnOnce() -> R, R>")],
+           proofs=[(r"let _ = self\.draw\(true, None, Instant::now\(\)\);", "before", """        proof {
+            assert forall|w: nat| 1 <= w <= 65535 implies #[trigger] ms_small(*self, None, w) by {
+                assert(ms_small(*old(self), None, w));
+                assert(self.ordering@ == old(self).ordering@ && self.members@ == old(self).members@);
+            }
+        }""")],
+           requires=[("wf", "old(self).wf()"), ("target-wf", "old(self).draw_target.wf()"), ("clock", "time_ok(now)"), ("own-target", "!(old(self).draw_target.kind is Multi)"),
+                     ("callback", "f.requires(())"),
+                     ("sizes", "old(self).zombie_lines_count.0 <= 0x0FFF_FFFF && llc_of(old(self).draw_target) <= 0x0FFF_FFFF && forall|w: nat| 1 <= w <= 65535 ==> #[trigger] ms_small(*old(self), None, w)")],
+           ensures=[("C18-no-panic-on-io-error", "f.ensures((), r)", ["C18"])]),
     ],
 )
 
